@@ -55,6 +55,12 @@ def check_c15(ctx, sched, now, task_pl, plist):
             ctx.violate("C15", "model_not_loaded",
                         f"Clockwork at t={now}: batch of model {prof.name} placed on {worker.name} where the model "
                         f"is not loaded (is_available={worker.is_available(prof)})", {})
+        led_ = ctx.ledgers.get(id(worker))
+        ready_at = getattr(led_, "load_ready", {}).get(id(prof)) if led_ is not None else None
+        if ready_at is not None and now < ready_at:
+            ctx.violate("C15", "model_still_loading",
+                        f"Clockwork at t={now}: batch of model {prof.name} placed on {worker.name}, whose load of "
+                        f"that model (declared loading time) completes at {ready_at}", {})
         if (wid, id(prof)) in evicted and evicted[(wid, id(prof))] <= now:
             ctx.violate("C15", "model_evicted_by_same_answer",
                         f"Clockwork at t={now}: batch of model {prof.name} placed on {worker.name} although the same "
